@@ -69,6 +69,30 @@ fn main() {
             "C13" => checks::c13::run(&ctx),
             "C19" => checks::c19::run(&ctx),
             "C18" => checks::c18::run(&ctx),
+            "loomcases" => {
+                // debug aid: print the loom cases (every history) of one named collision / family game
+                // usage: vcheck loomcases  with env GAME, METHOD, ITERS, TARGETS (comma separated)
+                let name = std::env::var("GAME").unwrap_or("wide_shared_3".into());
+                let method = checks::c08::method_from(&std::env::var("METHOD").unwrap_or("external".into()));
+                let iters: u64 = std::env::var("ITERS").ok().and_then(|v| v.parse().ok()).unwrap_or(1);
+                let targets: Vec<usize> = std::env::var("TARGETS").unwrap_or("2,3,4,5,6".into()).split(',').map(|t| t.parse().unwrap()).collect();
+                let (_, tree) = checks::c06::collision_games().into_iter().chain(vrt::universe::families()).find(|(n, _)| *n == name).expect("game name");
+                let game = vrt::subject::build(&tree).unwrap();
+                let al = vrt::runner::align(&tree, &game).unwrap();
+                let lb = vrt::multi::LoomBounds { pb3: Some(2), pb4: Some(1), max_permutations: 30_000, max_seconds: 40 };
+                let spec = checks::c08::ParamSpec::Preset(0);
+                if method == vrt::refcfr::RefMethod::Full {
+                    let cfg = vrt::multi::Config { method, spec, iters, max_reg: 0.0, script: Default::default(), fallback: vrt::explore::Fallback::First };
+                    let seq = vrt::multi::sequential(&tree, &game, &al, &cfg).unwrap();
+                    println!("{}", vrt::multi::loom_case(0, &tree, &cfg, &seq, 2, &targets, true, &lb));
+                } else {
+                    let (hist, _) = checks::c07::histories(&ctx, &tree, &game, &al, method, spec, iters, 64);
+                    for (cfg, seq) in hist {
+                        println!("{}", vrt::multi::loom_case(0, &tree, &cfg, &seq, 2, &targets, true, &lb));
+                    }
+                }
+                0
+            }
             "count" => {
                 for (m, a, l) in [(2, 3, 9), (3, 2, 8), (3, 3, 5), (3, 3, 7), (4, 2, 5), (4, 3, 5), (4, 3, 7)] {
                     let b = vrt::universe::Bounds { max_internal: m, max_arity: a, max_leaves: l, chance_infosets: true, degenerate: true };
